@@ -4,6 +4,7 @@ from vlib.gens import *
 from vlib.props.c07 import to_radix, sb, ALNUM
 
 GROUP = "text"
+USES_GEN = True
 READY = True
 LEAN_PROPS = "Dashu.Props.C08"
 LEAN_AUDIT = "Dashu.Audit.C08"
@@ -341,6 +342,7 @@ REFINED = [
     "=> rounding contract of C03 (convert_base_pow_up_branch, convert_base_pow_up_contract, ilog_exact_sound)",
     "Context::convert_base, branch B = NewB^n and branch small non-negative exponent (as of fix commit 02e179b): same "
     "(convert_base_pow_down_branch/_contract, convert_base_small_pos_contract, exact_when_fits)",
+    "Tie A: THRESHOLD_SMALL_EXP of convert_base is regenerated from float/src/convert.rs (Dashu.Gen.float_THRESHOLD_SMALL_EXP) and used by convertBase",
     "documented precision of with_base (max q with NewB^q <= B^p) on the specification side (with_base_precision_documented)",
     "TryFrom<f32/f64> for FBig<_,2> / Repr<2>: exact value, precision = bit_len(mantissa) (from_ieee_exact)",
     "Repr::from_str_native on the plain form of the grammar ([sign] int [. frac] [@ scale], bases 2..36, either case): exactly the written "
